@@ -41,12 +41,15 @@ Fixpoint mute_ids (x : ext) (lbl : Z -> labels) (S : store) (now : Z) (C : cache
       end
   end.
 
-(* the ids a flush at [t] hands to the pipeline, in the flush's order *)
+(* the ids a flush at [t] hands to the pipeline, in the flush's order; the Silencer's MuteStage comes LAST of the mute
+   stages (notify.go: inhibitor, time-active, time-mute, silencer), so it only sees what the others let through *)
 Definition flush_ids (g : gstate) (t : Z) : list Z :=
   match s_group g with
   | Some gr => map f_id (sort_f (map (freeze t) (gr_alerts gr)))
   | None => []
   end.
+
+Definition passed (other : list Z) (ids : list Z) : list Z := filter (fun a => negb (bool_decide (a ∈ other))) ids.
 
 Definition pstep (cfg : gcfg) (c : Silence.cfg) (x : ext) (lbl : Z -> labels) (P : pstate) (t : Z) (e : pev)
   : option (pstate * list Group.out) :=
@@ -58,7 +61,7 @@ Definition pstep (cfg : gcfg) (c : Silence.cfg) (x : ext) (lbl : Z -> labels) (P
       end
   | PTick tau other =>
       let S := fst (p_sc P) in
-      match mute_ids x lbl S t (snd (p_sc P)) (flush_ids (p_g P) t) with
+      match mute_ids x lbl S t (snd (p_sc P)) (passed other (flush_ids (p_g P) t)) with
       | (C', Some sup) =>
           match Group.step cfg (p_g P) t (ETick tau (sup ++ other)) with
           | Some (g', o) => Some (mkP (S, C') g' (Some (t, S)), o)
@@ -96,7 +99,7 @@ Fixpoint pview (cfg : gcfg) (c : Silence.cfg) (x : ext) (lbl : Z -> labels) (P :
       let e' := match e with
                 | PSil _ => EEnd
                 | PTick tau other =>
-                    match snd (mute_ids x lbl (fst (p_sc P)) t (snd (p_sc P)) (flush_ids (p_g P) t)) with
+                    match snd (mute_ids x lbl (fst (p_sc P)) t (snd (p_sc P)) (passed other (flush_ids (p_g P) t))) with
                     | Some sup => ETick tau (sup ++ other)
                     | None => EEnd
                     end
